@@ -298,18 +298,18 @@ def oracle_case(nv, case, runs=None):
             cache[key] = run_program(ns, argv)
         return cache[key]
 
-    B = run(body_base + tail)
     info = {"argvs": [body_base + tail, body_moved + tail]}
-    if B["exc"] is not None or B["stage"].get("tasks", "unset") is not None or len(B["calls"]) == 0:
+    B0 = run(body_base)
+    if B0["exc"] is not None or B0["stage"].get("tasks", "unset") is not None or len(B0["calls"]) == 0:
         info["dontcare"] = "base-invocation-not-accepted"
         return None, info
+    B = run(body_base + tail)
     # remainder verbatim, influences nothing
     if rem is not None:
-        if B.get("remainder") != " ".join(rem):
-            return "remainder %r is not the tokens after '--' joined by spaces (%r)" % (B.get("remainder"), rem), info
-        B0 = run(body_base)
         if not same_effect(B, B0) or B.get("unparsed") != B0.get("unparsed"):
             return "tokens after '--' changed the core values / task arguments / unparsed tokens", info
+        if B.get("remainder") != " ".join(rem):
+            return "remainder %r is not the tokens after '--' joined by spaces (%r)" % (B.get("remainder"), rem), info
     # everything from the first task name onward reaches task parsing intact
     if B.get("unparsed") != flat(calls):
         return "core pass handed %r to task parsing, the command line from the first task name on is %r" % (B.get("unparsed"), flat(calls)), info
@@ -369,11 +369,28 @@ def _brief(r):
             "calls": [(c["task"], c["kwargs"], dict((k, v) for k, v in c["snap"].items() if v not in (None, False))) for c in r["calls"]]}
 
 
+def oracle_random(nv, argv, res):
+    """direct statements that need no reference run: when the command line starts with a task name the core pass must hand
+    over everything up to '--' untouched; the remainder is the tokens after the first '--' joined by spaces"""
+    if res["stage"].get("core", "unset") is not None or "unparsed" not in res:
+        return None
+    body = argv[:argv.index("--")] if "--" in argv else argv
+    rem = argv[argv.index("--") + 1:] if "--" in argv else []
+    if res.get("remainder") != " ".join(rem):
+        return "remainder %r is not the tokens after '--' joined by spaces (%r)" % (res.get("remainder"), rem)
+    if body and body[0] in nv.view.names and res["unparsed"] != body:
+        return "core pass handed %r to task parsing, the command line from the first task name on is %r" % (res["unparsed"], body)
+    return None
+
+
 def replay(case):
     if case.get("kind") == "random":
         res = run_program(case["ns"], case["argv"])
         if not res["argv_same"]:
             return False, "Program.run modified argv"
+        why = oracle_random(NsView(case["ns"]), case["argv"], res)
+        if why:
+            return False, why
         return True, "ok"
     nv = NsView(case["ns"])
     why, info = oracle_case(nv, case)
@@ -472,5 +489,8 @@ def run(ctx):
                 out.hist["random:exception outside parsing (%s)" % res["exc"]] += 1
             if not res["argv_same"]:
                 out.fail(case, "Program.run modified argv")
+            why = oracle_random(nv, argv, res)
+            if why:
+                out.fail(case, why)
         compare_with_model(nv, runs, ctx, out, drv, baseline)
     return out
